@@ -29,6 +29,27 @@ package scen
 // and live calls in a drawn order (cancel-last: a scan inside the datastore
 // may notice its cancellation only after Close's own writes were served).
 
+//
+// keystore, resettable-keystore: the caller's context of an operation may end
+// while the operation is in flight (drawn, "abandon"; scheduler choice
+// "abandon>oNN", c14Flow.mayAbandon): either while the worker executes it -
+// the worker's datastore call made on the caller's behalf is parked - or while
+// it waits behind the busy worker. A caller that stops waiting is the ordinary
+// way in which an operation "fails" on a slow disk, and the instant at which
+// it does so relative to the worker's progress is part of "every instant at
+// which Close can interleave with running operations". No new rule: "those
+// operations finish or fail without ... deadlock" and "Close ... returns only
+// after all goroutines the instance started have exited" as encoded by op-hang
+// (the abandoned operation itself and every later one must return), close-hang
+// / second-close-hang (Close after - or while - the worker finishes work
+// nobody waits for any more), close-early and leak of c14.go. Class exposed:
+// hand-over protocols between a caller and the worker (or any goroutine the
+// instance runs) that only work while the caller keeps listening - a reply, an
+// acknowledgement or a buffer slot the worker waits for after the caller left.
+// Not generated: ending the context of a ResetCids (its select races are kept
+// out of the menu, see below) and ending a context once Close was issued (the
+// caller's select then has two ready cases, HARNESS pitfall 3).
+
 import (
 	"context"
 	"fmt"
@@ -65,14 +86,18 @@ func init() {
 	sim.Register(&sim.Scenario{Prop: "C14", Name: "keystore", Weight: 2, Run: func(s *sim.Sim) { runC14Keystore(s, false) },
 		Real:   []string{"keystore.NewKeystore / worker / Close (size persisted after the worker exited)", "Put/Get/Delete/Empty/Size/ContainsPrefix/CountKeysUpTo in flight or queued behind the worker"},
 		Stub:   stub,
-		Faults: append(append([]string{"probe_close_op_queued", "fault_ds_error_commit", "fault_ds_error_query", "fault_ds_error_has"}, c14OverlapFaults...), c14CommonFaults...),
+		Faults: append(append(append([]string{"probe_close_op_queued", "fault_ds_error_commit", "fault_ds_error_query", "fault_ds_error_has"}, c14AbandonFaults...), c14OverlapFaults...), c14CommonFaults...),
 	})
 	sim.Register(&sim.Scenario{Prop: "C14", Name: "resettable-keystore", Weight: 3, Run: func(s *sim.Sim) { runC14Keystore(s, true) },
 		Real:   []string{"keystore.NewResettableKeystore / worker / ResetCids (phases A-C, cleanup) / Close (waits for in-flight alt-datastore write)", "shared-datastore and factory mode", "keystore operations in flight, Puts buffered during a reset (back-pressure)"},
 		Stub:   append([]string{"datastore factory (simds instances)"}, stub...),
-		Faults: append(append([]string{"probe_close_during_reset", "probe_close_op_queued", "probe_cfg_factory_mode", "probe_reset_completed", "probe_close_during_reset_scan", "probe_close_aimed_at_reset_op", "probe_owned_ds_closed", "fault_ds_error_commit", "fault_ds_error_query", "fault_ds_error_has"}, c14OverlapFaults...), c14CommonFaults...),
+		Faults: append(append(append([]string{"probe_close_during_reset", "probe_close_op_queued", "probe_cfg_factory_mode", "probe_reset_completed", "probe_close_during_reset_scan", "probe_close_aimed_at_reset_op", "probe_owned_ds_closed", "probe_abandoned_during_reset", "fault_ds_error_commit", "fault_ds_error_query", "fault_ds_error_has"}, c14AbandonFaults...), c14OverlapFaults...), c14CommonFaults...),
 	})
 }
+
+// c14AbandonFaults: counters of the keystore scenarios' "the caller's context
+// ends while its operation is in flight" choice.
+var c14AbandonFaults = []string{"fault_caller_ctx_ended", "probe_abandoned_op_at_datastore", "probe_abandoned_op_queued", "probe_close_after_abandon", "probe_close_worker_busy_for_abandoned_op", "probe_op_inflight_after_abandon"}
 
 // untaggedDSParked: a datastore operation is parked that carries no client
 // tag, i.e. it was issued by a background loop.
@@ -246,6 +271,55 @@ func runC14Keystore(s *sim.Sim, resettable bool) {
 	f := newC14Flow(s, name)
 	f.answer = w.answer
 	f.dts = nil // virtual time only moves when nothing else can happen (see ResetCids' ticker)
+	// Callers may give up (see the header comment): an operation other than a
+	// reset whose own datastore call is parked with a live context (the worker
+	// is executing it), or which is in flight while some other datastore call
+	// is parked (it waits behind the busy worker, or - a Put during a reset -
+	// for room in the reset's buffer while the reset is at its datastore).
+	// In each of these states the caller and the worker have exactly one ready
+	// case to leave their selects through.
+	if s.Chance("abandon", 2, 3) {
+		ownDS := func(c *c14Client) (own, other bool) {
+			for _, p := range s.ParkedKind("ds") {
+				if containsStr(p.ID, "@"+c.tag) {
+					own = own || !p.Cancelled()
+				} else {
+					other = true
+				}
+			}
+			return
+		}
+		f.mayAbandon = func(c *c14Client) bool {
+			if c.name == "reset" {
+				return false
+			}
+			own, other := ownDS(c)
+			return own || other
+		}
+		f.onAbandon = func(c *c14Client) {
+			if own, _ := ownDS(c); own {
+				s.Count("probe_abandoned_op_at_datastore")
+			} else {
+				s.Count("probe_abandoned_op_queued")
+			}
+			for _, x := range f.clients {
+				if x.name == "reset" && x.started && !x.op.Done {
+					s.Count("probe_abandoned_during_reset")
+					break
+				}
+			}
+		}
+		after := false
+		f.extra = func() []sim.Action {
+			for _, c := range f.clients {
+				if !after && f.abandons > 0 && c.started && !c.abandoned && !c.op.Done && c.name != "reset" {
+					after = true
+					s.Count("probe_op_inflight_after_abandon")
+				}
+			}
+			return nil
+		}
+	}
 	f.baseline()
 
 	var ks keystore.Keystore
@@ -464,6 +538,19 @@ func runC14Keystore(s *sim.Sim, resettable bool) {
 		}
 	}
 	f.atClose = func() {
+		if f.abandons > 0 {
+			s.Count("probe_close_after_abandon")
+			busy := false
+			for _, c := range f.clients {
+				for _, p := range s.ParkedKind("ds") {
+					busy = busy || (c.abandoned && containsStr(p.ID, "@"+c.tag))
+				}
+			}
+			if busy {
+				// the worker is still at the datastore for a caller that left
+				s.Count("probe_close_worker_busy_for_abandoned_op")
+			}
+		}
 		for _, c := range resets {
 			if c.started && !c.op.Done {
 				s.Count("probe_close_during_reset")
